@@ -2,6 +2,8 @@ package harness
 
 import (
 	"bytes"
+	"encoding/hex"
+	"encoding/json"
 	"fmt"
 	"strings"
 
@@ -52,7 +54,13 @@ type concJob struct {
 // Programs whose lazy reads happen in tree-walk order. `tovalue | tojson` and
 // torepr convert children in Go map iteration order, so the order of their
 // disk calls - and with it the interleaving - would not replay.
-var concProgs = []string{"dv", "d", "[.. | select(_is_scalar?) | tovalue?] | tojson", "[limit(200; .. | select(_is_scalar?) | tobytes? | tohex)] | tojson"}
+var concProgs = []string{"dv", "d", "[.. | select(_is_scalar?) | tovalue?] | tojson", "[limit(200; .. | select(_is_scalar?) | tobytes? | tohex)] | tojson",
+	// the same expression text with and without flags, in different jobs of one process
+	`[limit(200; .. | select(_is_scalar?) | tobytes? | test("[a-z]"; "b"))] | map(select(.)) | length`,
+	`[limit(200; .. | select(_is_scalar?) | tobytes? | test("[a-z]"; "bi"))] | map(select(.)) | length`}
+
+// regexp programs and whether they match case-insensitively
+var concRegexProgs = map[string]bool{concProgs[4]: false, concProgs[5]: true}
 
 // concPool is a fixed subset of the small samples - one per format first, so
 // that lone references are computed once per worker and reused: the cost of a
@@ -186,6 +194,18 @@ func (*hconc) Run(rc *core.RunCtx) *core.RunResult {
 		}
 		jobs = append(jobs, j)
 	}
+	// a regexp job brings its twin with the other flags: the same expression text
+	// evaluated both ways within one run, whatever the process has seen before
+	for _, j := range append([]*concJob(nil), jobs...) {
+		if _, ok := concRegexProgs[j.prog]; ok && !j.garbage && j.planKind == simos.PlanNone && len(jobs) < maxJobs+1 {
+			c := *j
+			c.prog = concProgs[4]
+			if j.prog == concProgs[4] {
+				c.prog = concProgs[5]
+			}
+			jobs = append(jobs, &c)
+		}
+	}
 	knobs := map[string]int{"cacheReadAheadSize": []int{1, 7, 64, 64, 4096, 4096}[t.Intn(6)], "progressPrecision": precKnobs[t.Intn(len(precKnobs))]}
 	for _, j := range jobs {
 		j.key = fmt.Sprintf("%s|%s|%v|%s|%v", j.s.Rel, j.s.Format, j.s.Opts, j.prog, j.optForce)
@@ -308,6 +328,47 @@ func (*hconc) Run(rc *core.RunCtx) *core.RunResult {
 			// which of its reads the fault hits and is not compared
 			res.Probes["faulted_jobs"]++
 			continue
+		}
+		if flag, isRe := concRegexProgs[j.prog]; isRe && got.Exit == 0 {
+			// reference model for the regexp programs: the count follows from the
+			// job's own scalar values, whatever was compiled earlier in this process
+			sib := *j
+			sib.prog = concProgs[3]
+			sib.key = fmt.Sprintf("%s|%s|%v|%s|%v", sib.s.Rel, sib.s.Format, sib.s.Opts, sib.prog, sib.optForce)
+			sref, ok := concRefs[sib.key]
+			if !ok {
+				o := sib.newOS(t)
+				r := runFQ(t, o, fqOpts{Policy: simrt.PolSequential, Knobs: knobs})
+				res.Steps += r.Stats.Steps
+				if r.End == simrt.EndAllDone {
+					sref = &concRef{stdout: append([]byte(nil), r.Res.Stdout...), exit: r.Res.Exit}
+				}
+				concRefs[sib.key] = sref
+			}
+			var vals []any
+			var enc string // tojson output, printed as a JSON string
+			if sref != nil && sref.exit == 0 && json.Unmarshal(bytes.TrimSpace(sref.stdout), &enc) == nil && json.Unmarshal([]byte(enc), &vals) == nil {
+				n := 0
+				for _, v := range vals {
+					str, _ := v.(string)
+					raw, _ := hex.DecodeString(str)
+					hit := false
+					for _, c := range raw {
+						if c >= 'a' && c <= 'z' || flag && c >= 'A' && c <= 'Z' {
+							hit = true
+						}
+					}
+					if hit {
+						n++
+					}
+				}
+				res.Probes["regexp_model_checked"]++
+				if want := fmt.Sprintf("%d\n", n); string(got.Stdout) != want {
+					res.Violate("C18", "differs-from-model", "regexp-flags", fmt.Sprintf("job%d (%s -d %s %q) printed %q; its own scalar byte ranges match the expression in %d cases: what an evaluation compiled depends on earlier evaluations in the process\n  %s",
+						i, j.s.Rel, j.s.Format, j.prog, firstN(string(got.Stdout), 60), n, strings.Join(descr, "\n  ")))
+					return res
+				}
+			}
 		}
 		which := ""
 		switch {
